@@ -634,6 +634,14 @@ func genProg(r *RNG, o ProgOpts) *Prog {
 		p.Nodes = append(p.Nodes, ir.Label("Lend"))
 		g.tag("trailing-label")
 	}
+	// the same function with its blocks laid out against the direction of execution: data-flow passes that
+	// sweep the instruction list need one more round per block, and widths meet in the opposite order
+	if o.Branches && !o.Malformed && len(p.Nodes) >= 4 && r.Chance(20) {
+		if last, ok := p.Nodes[len(p.Nodes)-1].(*ir.Instruction); ok && last.IsTerminal {
+			p.Nodes = reverseLayout(p.Nodes, r)
+			g.tag("reverse-layout")
+		}
+	}
 	switch r.Intn(6) {
 	case 0:
 		p.Attrs = attr.NOSPLIT
@@ -649,6 +657,41 @@ func genProg(r *RNG, o ProgOpts) *Prog {
 		p.Local = 8 * (1 + r.Intn(4))
 	}
 	return p
+}
+
+// reverseLayout cuts the node list into 2..5 blocks, gives each a label and an explicit jump to the next
+// one, and lays the blocks out last to first behind an initial jump to the first block.  The function
+// computes the same thing.
+func reverseLayout(ns []ir.Node, r *RNG) []ir.Node {
+	k := 2 + r.Intn(4)
+	if k > len(ns) {
+		k = len(ns)
+	}
+	cuts := map[int]bool{}
+	for len(cuts) < k-1 {
+		cuts[1+r.Intn(len(ns)-1)] = true
+	}
+	var blocks [][]ir.Node
+	start := 0
+	for j := 1; j <= len(ns); j++ {
+		if cuts[j] || j == len(ns) {
+			blocks = append(blocks, ns[start:j])
+			start = j
+		}
+	}
+	jmp := func(l string) ir.Node { return must(x86.JMP(operand.LabelRef(l))) }
+	out := []ir.Node{jmp("Lrev0")}
+	for b := len(blocks) - 1; b >= 0; b-- {
+		out = append(out, ir.Label(fmt.Sprintf("Lrev%d", b)))
+		out = append(out, blocks[b]...)
+		if b < len(blocks)-1 {
+			lastI, isI := blocks[b][len(blocks[b])-1].(*ir.Instruction)
+			if !isI || !(lastI.IsTerminal || lastI.IsUnconditionalBranch()) {
+				out = append(out, jmp(fmt.Sprintf("Lrev%d", b+1)))
+			}
+		}
+	}
+	return out
 }
 
 // ---------------------------------------------------------------- staged execution of the real passes
